@@ -175,6 +175,12 @@ func checkC03(ctx *Ctx) {
 	// the window of F13, deterministically: one two-output task, killed after its first rename
 	cases = append(cases, c03Case{Chain: Chain{Inputs: []string{"a.txt"}, Levels: []Level{{TwoOut: true}}, Max: 2},
 		History: []attempt{{Point: "fin.renamed", N: 1, Cleanup: true}}})
+	// leftovers next to a finalized output, not cleaned up: the next run must refuse (not skip the task silently)
+	cases = append(cases,
+		c03Case{Chain: Chain{Inputs: []string{"a.txt"}, Levels: []Level{{}}, Max: 2}, History: []attempt{{Point: "fin.rmtmp.before", N: 1, Cleanup: false}}},
+		c03Case{Chain: Chain{Inputs: []string{"a.txt"}, Levels: []Level{{}, {}}, Max: 2}, History: []attempt{{Point: "fin.renamed", N: 2, Cleanup: false}}},
+		c03Case{Chain: Chain{Inputs: []string{"a.txt", "b.txt"}, Levels: []Level{{}}, Max: 1}, History: []attempt{{Point: "fin.rmtmp.before", N: 2, Cleanup: false}, {Point: "exec.start", N: 9, Cleanup: false}}},
+		c03Case{Chain: Chain{Inputs: []string{"a.txt"}, Levels: []Level{{TwoOut: true}}, Max: 2}, History: []attempt{{Point: "fin.renamed", N: 1, Cleanup: false}}})
 	parallel(len(cases), 8, func(i int) {
 		if ctx.TimeLeft() {
 			runC03(ctx, cases[i])
